@@ -33,6 +33,8 @@ pub struct World {
     /// xml:id values seen at parse time: (document lid, value)
     pub xml_ids: Vec<(Lid, String)>,
     pub reuse_seen: u64,
+    /// (source node, root of its clone) for every successful clone call
+    pub clone_pairs: Vec<(Lid, Lid)>,
 }
 
 /// A tree as read back from the real store through public accessors.
@@ -297,6 +299,7 @@ impl World {
             rev: HashMap::new(),
             xml_ids: vec![],
             reuse_seen: 0,
+            clone_pairs: vec![],
         }
     }
     pub fn h(&self, l: Lid) -> Node {
@@ -615,6 +618,47 @@ impl World {
     pub fn unchanged_vs_model(&mut self) -> Result<(), Violation> {
         self.compare_with_model(None, None)
     }
+}
+
+/// Does the real tree under the handle of `root` in `w` equal the subtree of
+/// `root` in `model` (same nodes at the same places, same values)? No binding.
+pub fn real_tree_matches_model(w: &World, model: &Model, root: Lid) -> Result<(), String> {
+    let h = match w.handles.get(&root) {
+        Some(h) => *h,
+        None => return Err(format!("no handle for {:?}", root)),
+    };
+    if w.xot.is_removed(h) {
+        return Err(format!("{:?} is removed", root));
+    }
+    if w.xot.parent(h).is_some() != model.n(root).parent.is_some() {
+        return Err(format!("{:?} changed its attachment", root));
+    }
+    let mut budget = NODE_LIMIT;
+    // read the subtree: temporarily treat h as root only if it is one
+    let t = if w.xot.parent(h).is_none() {
+        read_tree(&w.xot, h, false, &mut budget).map_err(|v| v.msg)?
+    } else {
+        read_node(&w.xot, h, false, false, &mut budget).map_err(|v| v.msg)?
+    };
+    fn rec(w: &World, model: &Model, l: Lid, r: &RNode) -> Result<(), String> {
+        if w.handles.get(&l) != Some(&r.node) {
+            return Err(format!("another node stands at the place of {:?}", l));
+        }
+        let m = model.n(l);
+        if m.kind != r.kind {
+            return Err(format!("{:?}: was {:?}, now {:?}", l, m.kind, r.kind));
+        }
+        for (ml, rl) in [(&m.ns, &r.ns), (&m.attrs, &r.attrs), (&m.kids, &r.kids)] {
+            if ml.len() != rl.len() {
+                return Err(format!("{:?}: child lists differ", l));
+            }
+            for (a, b) in ml.iter().zip(rl.iter()) {
+                rec(w, model, *a, b)?;
+            }
+        }
+        Ok(())
+    }
+    rec(w, model, root, &t)
 }
 
 /// one-line rendering of a model subtree for messages
